@@ -228,6 +228,18 @@ P = {
             "after-import / after-use histories.",
             "trusted: reference evaluator of vpmon/gen/relational.py; LIMIT/OFFSET bases excluded",
             "DESIGN.md 2/C15"),
+    "C19": ("metamorphic monitor: whitespace / keyword-case variants from the reference printer "
+            "through the real parser (decoded trees compared by literal value) and through 6 "
+            "backends (executed ids on SQLite / Django / SQLAlchemy, token-normalised text for "
+            "the standard and Athena dialects)",
+            "Exploration by runtime monitoring: accepted full-grammar filters are re-spelled with "
+            "random non-empty whitespace runs, optional whitespace at every position the grammar "
+            "allows, and random letter case of operator and literal keywords; each variant must "
+            "parse to the same tree with the same literal values, and typed filters must give "
+            "identical results on every backend for both spellings.",
+            "trusted: the variant generator inserts whitespace only where the statement allows "
+            "it; function names, identifiers and GUID digits are left alone",
+            "DESIGN.md 2/C19"),
 }
 
 NOT_BUILT_REASON = "check not built yet in this round (design in DESIGN.md section 2); not claimed"
